@@ -27,7 +27,7 @@ RULE = ("client scripts from a grammar over AUTH (EXTERNAL / DBUS_COOKIE_SHA1 / 
         "pipelined after BEGIN, rejection floods, 16 KiB boundary lines, EXTERNAL identity forms (own uid, other uid, "
         "login names, non-decimal spellings), cookie responses (right / wrong hash / wrong id / wrong context / stale "
         "cookie / malformed) computed from the server's live challenge; each script runs under one allowed-mechanism "
-        "setting x socket credentials x chunking (one write, 1-byte dribble, random cuts, per line, cut around BEGIN, "
+        "setting x socket credentials (daemon layer: unix sockets of uid 0 / 1 / 65534 and loopback TCP without credentials) x chunking (one write, 1-byte dribble, random cuts, per line, cut around BEGIN, "
         "fixed k). Oracle: vf/sasl.py stepped alongside. distinct = (layer, scenario, mechanism setting, credential "
         "class, chunking kind, final outcome, set of model branches taken). Admission layer: histories of "
         "connect-as-uid / close / ReloadConfig with another <allow|deny user=/group=> policy on the real daemon, every "
@@ -911,7 +911,7 @@ DAEMON_CONFIGS = [
     {"auth": None, "anon": False},
     {"auth": None, "anon": True},
 ]
-SOCK_UIDS = [0, 1, 65534]
+SOCK_UIDS = [0, 1, 65534, None]      # None: a loopback TCP connection - the kernel reports no credentials for it
 REPLY_WATCHDOG = 10.0
 
 
@@ -922,7 +922,11 @@ def daemon_conversation(part, d, ctl, env, cfg, uid, sc, items, ckind, rng, wit)
                        owner_uid=OWNER_UID, users=USERS, unix_fd_possible=True, guid=None)
     tr = tracker_for(model)
     try:
-        c = client.Client(d.sock, uid=(None if uid == os.getuid() else uid), gid=(None if uid == os.getuid() else uid))
+        if uid is None:
+            c = client.Client(d.tcp_addr)
+            part.count("daemon:conversations-over-tcp")
+        else:
+            c = client.Client(d.sock, uid=(None if uid == os.getuid() else uid), gid=(None if uid == os.getuid() else uid))
     except OSError:
         if _daemon_dead(d, 0.3):
             raise DaemonDied()
@@ -1047,7 +1051,7 @@ def daemon_conversation(part, d, ctl, env, cfg, uid, sc, items, ckind, rng, wit)
                 idents = tr.identities()
                 if got not in idents:
                     viol("%s:identity:%s-instead-of-%s" % (PROP, got[0], "/".join(sorted(i[0] for i in idents if i))),
-                         "GetConnectionUnixUser says %r, the completed mechanism established %r (socket uid %d)" % (got, sorted(idents), uid))
+                         "GetConnectionUnixUser says %r, the completed mechanism established %r (socket uid %r)" % (got, sorted(idents), uid))
                     return state["outcome"], tr
                 part.count("daemon:identity-checked")
                 part.count("daemon:authenticated-as:" + got[0])
@@ -1109,15 +1113,23 @@ def _worker_daemon(args):
     os.chmod(wdir, 0o755)
     env = Env(wdir, rng)
     cfg = DAEMON_CONFIGS[shard % len(DAEMON_CONFIGS)]
-    conf = busproc.make_config("@SOCK@", auth=cfg["auth"] or (), allow_anonymous=cfg["anon"])
+    conf = busproc.make_config("@SOCK@", auth=cfg["auth"] or (), allow_anonymous=cfg["anon"],
+                               extra="  <listen>tcp:host=127.0.0.1,port=0</listen>")
     mechs = None if cfg["auth"] is None else [m.encode() for m in cfg["auth"]]
     box = {"d": None, "ctl": None, "n": 0}
 
     def start():
         box["n"] += 1
-        d = busproc.Daemon(b, os.path.join(wdir, "run%d" % box["n"]), conf, env={"HOME": env.home, "DBUS_TEST_HOMEDIR": env.home})
+        d = busproc.Daemon(b, os.path.join(wdir, "run%d" % box["n"]), conf, env={"HOME": env.home, "DBUS_TEST_HOMEDIR": env.home},
+                           print_address=True)
         box["d"] = d
         if not d.started():
+            return False
+        d.tcp_addr = None
+        for t, kv in d.addresses():
+            if t == "tcp":
+                d.tcp_addr = ("127.0.0.1", int(kv["port"]))
+        if d.tcp_addr is None:
             return False
         os.chmod(d.sock, 0o777)
         box["ctl"] = _control(d, cfg, env)
@@ -1148,6 +1160,10 @@ def _worker_daemon(args):
             guard += 1
             uid = rng.choice(SOCK_UIDS)
             sc, items = gen_script(rng, mechs, uid, daemon=True)
+            if uid is None and done % 5 == 0:
+                uid = rng.choice(SOCK_UIDS)          # the forced cases claim a uid; over TCP every third of them (below)
+                if uid is None or done % 15 == 0:
+                    uid = None
             if sc.startswith("long") and sum(len(i[1]) for i in items if i[0] == "raw") > 40000 and rng.random() < 0.5:
                 continue
             if done % 5 == 0:
@@ -1171,7 +1187,7 @@ def _worker_daemon(args):
                     part.inconclusive.append("control connection failed: %r" % (e,))
                     break
             env.reread()
-            setting = {"mechs": cfg["auth"], "cred": "uid%d%s" % (uid, "+anon" if cfg["anon"] else "")}
+            setting = {"mechs": cfg["auth"], "cred": "%s%s" % ("tcp-no-credentials" if uid is None else "uid%d" % uid, "+anon" if cfg["anon"] else "")}
             _sig_and_sample(part, "daemon", sc, setting, ckind, outcome, tr, items, shard)
             if outcome == "DAEMON-DIED" or not d.alive():
                 # the death is reported (with this script as witness) by finish(); go on with a fresh daemon
@@ -1212,6 +1228,8 @@ def _control(d, cfg, env):
 
 def _forced(rng, k, uid):
     other = rng.choice([x for x in (0, 1, 1000, 65534) if x != uid])
+    if uid is None:
+        uid = 0          # over TCP there are no credentials: claiming ANY uid through EXTERNAL must be rejected
     begin = [("raw", b"BEGIN\r\n" + HELLO)]
     k = k % 8
     if k == 0:
@@ -1250,10 +1268,16 @@ def _replay(r, b, exe, root, path):
     part.evaluations = 1
     if w.get("layer") == "daemon":
         cfg = w["config"]
-        conf = busproc.make_config("@SOCK@", auth=cfg["auth"] or (), allow_anonymous=cfg["anon"])
+        conf = busproc.make_config("@SOCK@", auth=cfg["auth"] or (), allow_anonymous=cfg["anon"],
+                                   extra="  <listen>tcp:host=127.0.0.1,port=0</listen>")
         os.chmod(root, 0o755)
         os.chmod(os.path.join(root, "replay"), 0o755)
-        d = busproc.Daemon(b, os.path.join(root, "replay", "run"), conf, env={"HOME": env.home, "DBUS_TEST_HOMEDIR": env.home})
+        d = busproc.Daemon(b, os.path.join(root, "replay", "run"), conf, env={"HOME": env.home, "DBUS_TEST_HOMEDIR": env.home},
+                           print_address=True)
+        d.tcp_addr = None
+        for t, kv in d.addresses():
+            if t == "tcp":
+                d.tcp_addr = ("127.0.0.1", int(kv["port"]))
         os.chmod(d.sock, 0o777)
         ctl = _control(d, cfg, env)
         try:
